@@ -920,6 +920,9 @@ def run_history(path, ops, scratch, tag):
             twin = copy.deepcopy(dev)
             evs.append({"k": "begin"})
             aevs = authorize_object(obj, dev)
+            if op.get("nofresh"):
+                evs.extend(aevs)
+                continue
             fp = os.path.join(scratch, "fresh_%s_%d.json" % (tag, i))
             with open(fp, "w") as f:
                 f.write(json.dumps({"version": 1, "signer": {"hash": expect["hash"], "iteration": expect["iter"]},
@@ -1038,13 +1041,20 @@ def execute(recipe, scratch, tag):
         if recipe.get("roundtrip") and os.path.exists(path):
             evs.append(roundtrip_event(path, scratch, tag))
     if recipe.get("history") is not None and os.path.exists(path):
-        evs.extend(run_history(path, recipe["history"], scratch, tag))
+        try:
+            evs.extend(run_history(path, recipe["history"], scratch, tag))
+        except ValueError:
+            # the loader refuses the file the steps above left: the operations on the object cannot
+            # start; the refusal itself is judged on the build / sign / roundtrip events
+            info["history_not_started"] = True
     if recipe.get("admin_twice") is not None and os.path.exists(path):
         evs.extend(admin_twice(path, recipe["admin_twice"], scratch))
     d = recipe.get("device")
     if d is not None:
         dev = UIDevice([bytes.fromhex(a) for a in d["authorizers"]], d["threshold"], cur_iter=d["cur"])
         aevs, exc = authorize(path, dev, recipe.get("via", "admin"), shape=recipe.get("admin_shape"))
+        if recipe.get("history") or recipe.get("admin_twice"):
+            evs.append({"k": "begin"})      # one more authorize operation after the ones above
         evs.extend(aevs)
         info["exc"] = exc
         info["success_at"] = dev.success_at
